@@ -56,6 +56,14 @@ def save_jobs(tier):
              "map_order": True, "_obligation": "O2", "_covers": ["saved"], "unwind": 80}]
 
 
+from props import C15 as _c15
+
+
+def receive_jobs(tier):
+    return [{"id": "O5.received-block-filed-under-its-hash", "func": "VerifH_C04_ReceivedBlockFiledUnderItsHash", "conf": {"nested": 0, "calls": 0, "restart": 0},
+             "_obligation": "O5", "_covers": ["received"]}]
+
+
 PROPERTY = {
     "id": "C04",
     "suites": [
@@ -64,6 +72,7 @@ PROPERTY = {
          "jobs": block_jobs, "overrides": OVR, "unwind": 30},
         dict(_c02.SUITE, name="frontier", jobs=frontier_jobs),
         dict(_c20.SAVE_SUITE, name="save", jobs=save_jobs),
+        dict(_c15.PROPERTY["suites"][0], name="receive", jobs=receive_jobs),
     ],
     "bounds": {"commits": "3 (quick) / 4 (thorough), <=2 parents, all hash orders, all downward-closed merged sets; plus fixed 6- and 8-commit histories (two hash orders) for the frontier of the document and of the field after 2-3 deliveries", "heads/links passed to New": "<=3, all permutations"},
     "assumptions": ["a block's link is a function of its content (synthetic CIDs inside the solver run; real ones natively in the frontier suite)", "kvmodel follows the corekv contract"],
